@@ -1,7 +1,108 @@
 package main
 
+import (
+	"encoding/json"
+	"fmt"
+	"os"
+	"os/exec"
+	"path/filepath"
+	"strings"
+)
+
+var pkgDirs = map[string]string{
+	"corerad": "internal/corerad", "config": "internal/config", "plugin": "internal/plugin",
+	"system": "internal/system", "netstate": "internal/netstate", "crhttp": "internal/crhttp",
+}
+
 // runAdapter replays a counterexample against the real code through a
-// per-function adapter (an in-package Go test injected with `go test -overlay`).
+// per-function adapter: an in-package Go test injected with `go test -overlay`
+// (nothing is written into the repository). The adapter receives the model and
+// the failed clause label, calls the real function and prints REPLAY-CONFIRMED
+// when the real code violates the clause for that input.
 func runAdapter(o CheckOpts, ob *Obligation, vals map[string]string, replayPath string) bool {
-	return false
+	ok, out := runAdapterRaw(o.Verif, o.Root, ob.Func, ob.Name, ob.Label, ob.Kind, vals)
+	// record in the replay file
+	var m map[string]any
+	if b, err := os.ReadFile(replayPath); err == nil && json.Unmarshal(b, &m) == nil {
+		m["model"] = vals
+		m["function"] = ob.Func
+		m["label"] = ob.Label
+		m["kind"] = ob.Kind
+		m["replay_confirmed"] = ok
+		m["replay_output"] = out
+		nb, _ := json.MarshalIndent(m, "", " ")
+		os.WriteFile(replayPath, nb, 0o644)
+	}
+	return ok
+}
+
+func adapterFor(verif, fn string) string {
+	p := filepath.Join(verif, "replay", "adapters", sanitize(fn)+"_test.go")
+	if _, err := os.Stat(p); err == nil {
+		return p
+	}
+	return ""
+}
+
+func runAdapterRaw(verif, root, fn, obl, label, kind string, vals map[string]string) (bool, string) {
+	ad := adapterFor(verif, fn)
+	if ad == "" {
+		return false, "no replay adapter for " + fn
+	}
+	pkg := fn[:strings.Index(fn, ".")]
+	dir, ok := pkgDirs[pkg]
+	if !ok {
+		return false, "no package dir for " + pkg
+	}
+	tmp, err := os.MkdirTemp("", "govc-replay-")
+	if err != nil {
+		return false, err.Error()
+	}
+	defer os.RemoveAll(tmp)
+	ov := map[string]any{"Replace": map[string]string{filepath.Join(root, dir, "zz_govc_replay_test.go"): ad}}
+	ob, _ := json.Marshal(ov)
+	ovf := filepath.Join(tmp, "overlay.json")
+	os.WriteFile(ovf, ob, 0o644)
+	mb, _ := json.Marshal(vals)
+	cmd := exec.Command("go", "test", "-overlay", ovf, "-vet=off", "-count=1", "-timeout", "60s", "-v", "-run", "TestGovcReplay", "./"+dir)
+	cmd.Dir = root
+	cmd.Env = append(os.Environ(), "GOFLAGS=-mod=mod", "GOPROXY=off", "GOSUMDB=off", "GOTOOLCHAIN=local",
+		"GOVC_MODEL="+string(mb), "GOVC_OBLIGATION="+obl, "GOVC_LABEL="+label, "GOVC_KIND="+kind)
+	out, _ := cmd.CombinedOutput()
+	s := string(out)
+	return strings.Contains(s, "REPLAY-CONFIRMED"), firstLines(s, 40)
+}
+
+// replayFile re-runs the adapter for a stored replay file.
+func replayFile(verif, root, path string) int {
+	b, err := os.ReadFile(path)
+	if err != nil {
+		fmt.Fprintln(os.Stderr, err)
+		return 2
+	}
+	var m struct {
+		Property   string            `json:"property"`
+		Obligation string            `json:"obligation"`
+		Function   string            `json:"function"`
+		Label      string            `json:"label"`
+		Kind       string            `json:"kind"`
+		Model      map[string]string `json:"model"`
+		Reason     string            `json:"reason"`
+	}
+	if err := json.Unmarshal(b, &m); err != nil {
+		fmt.Fprintln(os.Stderr, err)
+		return 2
+	}
+	if m.Function == "" {
+		fmt.Printf("replay file names obligation %s (%s); it carries no input to run: no-failing-input-found\n", m.Obligation, m.Reason)
+		return 1
+	}
+	ok, out := runAdapterRaw(verif, root, m.Function, m.Obligation, m.Label, m.Kind, m.Model)
+	fmt.Println(out)
+	if ok {
+		fmt.Printf("VIOLATION property=%s replay=%s\n", m.Property, path)
+		return 1
+	}
+	fmt.Println("replay did not reproduce the violation on this tree")
+	return 0
 }
